@@ -194,6 +194,12 @@ Definition taste_of (c : actx) (wasInOpen : bool) (ty hdr : Z) : ck :=
        | _ => taste (a_cs c) (a_top c) false ty hdr
        end.
 
+(* an ABORT that is not being ignored: "raise Violation('ABORT received')" *)
+Definition abort_violation (c : actx) : actx * list op :=
+  if abort_in_index_phase_abandons_sequence
+  then let r := violation c (a_inopen c) false in (set_inopen (fst r) false, snd r)
+  else violation c false false.
+
 (* the clauses of handleData for a token without a body, after the taste *)
 Definition clauses (c2 : actx) (es : list op) (rejected : bool) (ty hdr : Z) : actx * list op :=
   let cont (r : actx * list op) := (fst r, es ++ snd r) in
@@ -202,8 +208,12 @@ Definition clauses (c2 : actx) (es : list op) (rejected : bool) (ty hdr : Z) : a
     if rejected then (if a_inopen c3 then (set_inopen (set_disc c3 (a_disc c3 + 1)) false, es) else (c3, es))
     else (set_first (set_inopen c3 true) true, es)
   else if ty =? tok_CLOSE then
-    if 0 <? a_disc c2 then (set_disc c2 (a_disc c2 - 1), es) else cont (handle_close c2 hdr)
-  else if ty =? tok_ABORT then (if rejected then (c2, es) else cont (violation c2 false false))
+    (* translated: close_in_index_phase_is_fatal -- "CLOSE token in the index phase of an OPEN sequence" *)
+    if close_in_index_phase_is_fatal && a_inopen c2 && negb (0 <? a_disc c2) then (set_dead c2, es)
+    else if 0 <? a_disc c2 then (set_disc c2 (a_disc c2 - 1), es) else cont (handle_close c2 hdr)
+  else if ty =? tok_ABORT then
+    (* translated: abort_in_index_phase_abandons_sequence -- handleViolation(.., inOpen=self.inOpen); self.inOpen = False *)
+    (if rejected then (c2, es) else cont (abort_violation c2))
   else if ty =? tok_INT then (if rejected then (c2, es) else cont (deliver c2 ty hdr [] (VInt hdr)))
   else if ty =? tok_NEG then (if rejected then (c2, es) else cont (deliver c2 ty hdr [] (VInt (- hdr))))
   else if ty =? tok_VOCAB then
@@ -295,10 +305,12 @@ Record coracle := { co_tasters : list (option taster);   (* per handle: None = n
                     co_max_index : Z;                    (* RootUnslicer.maxIndexLength *)
                     co_copyable : list Z;                 (* "copyable": doOpen waits for a second index token ... *)
                     co_max_copyable : Z;                  (* ... whose length is limited by the longest registered name *)
-                    co_second : bool }.                   (* state: the next index token is that second one *)
+                    co_second : bool;                     (* state: the next index token is that second one *)
+                    co_known : list (list Z);             (* the one-token opentypes of the real open registries *)
+                    co_copyables : list (list Z) }.       (* the names in the real CopyableRegistry *)
 Definition co_set_second (o : coracle) (b : bool) : coracle :=
   {| co_tasters := co_tasters o; co_max_index := co_max_index o; co_copyable := co_copyable o;
-     co_max_copyable := co_max_copyable o; co_second := b |}.
+     co_max_copyable := co_max_copyable o; co_second := b; co_known := co_known o; co_copyables := co_copyables o |}.
 
 Fixpoint taster_get (t : taster) (ty : Z) : option (option Z) :=
   match t with [] => None | (k, l) :: r => if k =? ty then Some l else taster_get r ty end.
@@ -327,5 +339,12 @@ Definition c_taste (o : coracle) (t : utop) (inOpen : bool) (ty size : Z) : ck :
        end.
 
 Definition c_after (o : coracle) (t : utop) (inOpen : bool) (ty hdr : Z) (body : list Z) : dres * coracle :=
-  if inOpen then (if negb (co_second o) && list_eqb body (co_copyable o) then (DMore, co_set_second o true) else (DOk, co_set_second o false))
+  if inOpen then
+    match t with
+    | URoot | UOther _ _ => (DViol, co_set_second o false)     (* no further top-level opentype / inbound calls: not in the streams *)
+    | _ =>
+      if co_second o then ((if existsb (list_eqb body) (co_copyables o) then DOk else DViol), co_set_second o false)
+      else if list_eqb body (co_copyable o) then (DMore, co_set_second o true)
+      else ((if existsb (list_eqb body) (co_known o) then DOk else DViol), o)
+    end
   else (DOk, o).
